@@ -57,6 +57,8 @@ type runningStats struct {
 	rangeStat *structs.RangeStat
 	avgStat   *structs.AvgStat
 	tDigest   *utils.GobbableTDigest
+
+	numCount uint64 // for a Sum on a column: how many records had a numeric value; avg divides by it
 }
 
 func (rs *runningStats) syncRawValue() {
@@ -80,6 +82,7 @@ type RunningStatsJSON struct {
 	AvgStat   *structs.AvgStat    `json:"avgStat"`
 	StrSet    map[string]struct{} `json:"strSet"`
 	StrList   []string            `json:"strList"`
+	NumCount  uint64              `json:"numCount"`
 }
 
 type SerializedRunningStats struct {
@@ -87,6 +90,7 @@ type SerializedRunningStats struct {
 	Hll       *utils.GobbableHll
 	RangeStat *structs.RangeStat
 	AvgStat   *structs.AvgStat
+	NumCount  uint64
 }
 
 func initRunningStats(internalMeasureFns []*structs.MeasureAggregator) []runningStats {
@@ -155,6 +159,9 @@ func (rr *RunningBucketResults) AddMeasureResults(runningStats *[]runningStats, 
 			step, err := rr.AddEvalResultsForSum(runningStats, measureResults, i, fieldToValue)
 			if err != nil {
 				batchErr.AddError("RunningBucketResults.AddMeasureResults:Sum", err)
+			}
+			if rr.currStats[i].ValueColRequest == nil && measureResults[i].IsNumeric() {
+				(*runningStats)[i].numCount += cnt
 			}
 			i += step
 		case sutils.Avg:
@@ -296,6 +303,7 @@ func (rr *RunningBucketResults) mergeRunningStats(runningStats *[]runningStats, 
 				if err != nil {
 					batchErr.AddError(fmt.Sprintf("RunningBucketResults.mergeRunningStats:%s", rr.currStats[i].MeasureFunc), err)
 				}
+				(*runningStats)[i].numCount += toJoinRunningStats[i].numCount
 			} else {
 				fields := rr.currStats[i].ValueColRequest.GetFields()
 				err := rr.ProcessReduceForEval(runningStats, toJoinRunningStats[i].rawVal, i, rr.currStats[i].MeasureFunc)
@@ -872,6 +880,7 @@ func (rs runningStats) GetRunningStatJSON() RunningStatsJSON {
 		RawVal:    rs.rawVal.CVal,
 		RangeStat: rs.rangeStat,
 		AvgStat:   rs.avgStat,
+		NumCount:  rs.numCount,
 	}
 	if rs.hll != nil {
 		rsJson.Hll = rs.hll.ToBytes()
@@ -892,6 +901,7 @@ func (rj RunningStatsJSON) GetRunningStats() (runningStats, error) {
 	rs := runningStats{
 		rangeStat: rj.RangeStat,
 		avgStat:   rj.AvgStat,
+		numCount:  rj.NumCount,
 	}
 	if rj.RawVal != nil {
 		CVal := sutils.CValueEnclosure{}
@@ -951,6 +961,7 @@ func (rs *runningStats) ToSerializedRunningStats() *SerializedRunningStats {
 		Hll:       rs.hll,
 		RangeStat: rs.rangeStat,
 		AvgStat:   rs.avgStat,
+		NumCount:  rs.numCount,
 	}
 }
 
@@ -981,6 +992,7 @@ func (srs *SerializedRunningStats) ToRunningStats() *runningStats {
 		hll:       srs.Hll,
 		rangeStat: srs.RangeStat,
 		avgStat:   srs.AvgStat,
+		numCount:  srs.NumCount,
 	}
 }
 
